@@ -294,7 +294,7 @@ def run_config_symbolic(pid, cfg, tier, seed):
                     facts = [L(f) for f in o0.facts]
                     md = max([h.depth for h in h0], default=0) + 1
                     okfacts = [f for f in facts if prove.valid(f, Ag, 20000).verdict == 'proved']
-                    g1, log1 = prove.sweep(goals, Ag, B.sampler(seed), timeout_ms=min(timeout_ms, 3000), hints=h0,
+                    g1, log1 = prove.sweep(goals, Ag, B.sampler(seed), timeout_ms=cfg.get('sweep_timeout_ms', min(timeout_ms, 3000)), hints=h0,
                                            budget_s=max(budget, cfg.get('stage1_budget_s', 150)), max_depth=md, protect=okfacts,
                                            scales=[L(x) for x in o0.scales])
                     sh = log1.pop('swept_hints', h0)
@@ -318,7 +318,7 @@ def run_config_symbolic(pid, cfg, tier, seed):
                     for o, g in zip(obs_g, r3):
                         swept[id(o)] = (g, A2)
                     continue
-                newg, log = prove.sweep(goals, Ag, B.sampler(seed), timeout_ms=min(timeout_ms, 3000), hints=hints, budget_s=budget,
+                newg, log = prove.sweep(goals, Ag, B.sampler(seed), timeout_ms=cfg.get('sweep_timeout_ms', min(timeout_ms, 3000)), hints=hints, budget_s=budget,
                                         scales=[L(x) for x in obs_g[0].scales])
                 log.pop('swept_hints', None)
                 log.pop('swept_protect', None)
